@@ -26,6 +26,10 @@ type OddsMult struct {
 
 // Op is a tagged union; unused fields are zero.
 type Op struct {
+	// harness-only: before this op, execute something on a branch of the state that is then DISCARDED (what a failing multi-message
+	// transaction, a simulation or a mempool check does): "self" = this op's own message, "betprm:<min>:<fee>" = a bet parameter
+	// update under the governance authority.  The model ignores it: a discarded branch leaves no trace.
+	Dry string
 	Kind   string
 	T      int64 // BEGIN time
 	Signer int64
@@ -242,6 +246,9 @@ func ParseOp(line string) Op {
 		if strings.HasPrefix(x, "#f2=") {
 			v, _ := strconv.Atoi(x[4:])
 			o.Tk2.Forge = v
+		}
+		if strings.HasPrefix(x, "#dry=") {
+			o.Dry = x[5:]
 		}
 	}
 	return o
